@@ -105,6 +105,33 @@ def run_c06(repo, tier, seed, only=None):
                 os.path.abspath(os.path.join(sub, str(b[1]['p']))) == exp_p
             if not ok:
                 R.fail('bounded:C06.file-relative-path-denotes-a-location-relative-to-the-file-it-was-written-in', f'direct {a!r}, via include {b!r}, expected {exp_p}'[:600], {'family': 'c06', 'docs': []})
+            # parent(n) for n up to and beyond the depth of the name the file was given by: the location must not depend on whether the
+            # file was named absolutely, relatively to the working directory, or reached through an include
+            with open(os.path.join(sub, 'pn.yaml'), 'w') as f:
+                f.write(''.join(f'p{n}: !path:parent({n}) [data]\n' for n in range(5)))
+            with open(os.path.join(d, 'inc_pn.yaml'), 'w') as f:
+                f.write('!include sub/pn.yaml\n')
+            absname = os.path.join(sub, 'pn.yaml')
+            routes = {'absolute name': ((absname,), d), 'relative name': ((os.path.relpath(absname, d),), d), 'relative name from its own directory': (('pn.yaml',), sub),
+                      'include from a file named relatively': (('inc_pn.yaml',), d)}
+            for label, (args_, cwd_) in routes.items():
+                res = build_files(ay, args_, cwd=cwd_, raw_yaml=False)
+                R.cases += 1
+                bad = None
+                if res[0] != 'ok':
+                    bad = f'build failed: {res!r}'
+                else:
+                    for n in range(5):
+                        anc = absname
+                        for _ in range(n + 1):
+                            anc = os.path.dirname(anc)
+                        want = os.path.normpath(os.path.join(anc, 'data'))
+                        have = os.path.normpath(os.path.join(cwd_, str(res[1][f'p{n}'])))
+                        if have != want:
+                            bad = f'parent({n}) denotes {have}, expected {want}'
+                            break
+                if bad:
+                    R.fail('bounded:C06.parent-n-denotes-the-same-location-however-the-file-was-reached', f'{label}: {bad}'[:500], {'family': 'c06', 'docs': []})
         finally:
             shutil.rmtree(d, ignore_errors=True)
     return R.result()
@@ -133,6 +160,20 @@ def run_c01(repo, tier, seed, only=None):
         if rng.random() < 0.3:
             d = (d[0], d[1], rng.choice(['force', 'weak', 'del', 'merge', 'new', 'unsafe']))
         cases.append((G.render(d), G.render(G.strip_tags(d))))
+    # metadata syntax `{{...}}` on several nodes of one source (the source text is rewritten block by block before PyYAML sees it)
+    for _ in range(n_cases(tier, 40, 600)):
+        g = G.Gen(rng, tags=('force', 'weak', 'merge'), p_tag=0.2)
+        d = g.map(2, top=True)
+        plain_text = G.render(G.strip_tags(d))
+        items = []
+        nblocks = rng.randint(1, 5)
+        for i in range(nblocks):
+            md = rng.choice(["'k': %d" % i, "'priority': 1, 'm': 'x%d'" % i, "'note': 'a b', 'n': %d" % (i * 11), "'delete': False"])
+            val = rng.choice(['5', "'v'", '[1, 2]', '{z: 1}', 'null'])
+            items.append((f'md{i}', f'!metadata{{{{{md}}}}} {val}', val))
+        text = G.render(d)[:-1] + (', ' if len(G.render(d)) > 2 else '') + ', '.join(f'{k}: {t}' for k, t, _ in items) + '}'
+        ptext = plain_text[:-1] + (', ' if len(plain_text) > 2 else '') + ', '.join(f'{k}: {v}' for k, _, v in items) + '}'
+        cases.append((text, ptext))
     for text, plain_text in cases:
         if plain_text is None:
             import re
@@ -379,7 +420,11 @@ def run_c12(repo, tier, seed, only=None):
         if rc != 0 or not res or res[0] != exp:
             R.fail('bounded:C12.known:' + kname, f'program {prog!r} with a=2, b=3: native {exp!r}; through !eval: results {res!r}, exit status {rc!r}', {'family': 'c12', 'docs': [prog]})
     # residual class: programs whose code objects mention at most one distinct global/config/builtin name (see the finding)
-    one_name = ['1 + 1', '2 * (3 + 4)', 'a + 1', 'a * a', '(lambda z: z + a)(1)', "{'k': a}['k']", '[a, a][1]', 'a if a else 0', "'x' * a", '-a', 'not a', '(a, a)', 'zz', '1 // 0', '1 +', '[a for _ in (1, 2)]']
+    one_name = ['1 + 1', '2 * (3 + 4)', 'a + 1', 'a * a', '(lambda z: z + a)(1)', "{'k': a}['k']", '[a, a][1]', 'a if a else 0', "'x' * a", '-a', 'not a', '(a, a)', 'zz', '1 // 0', '1 +', '[a for _ in (1, 2)]',
+                # several nested code objects in a code object that reads no name itself (each nested one reads at most one name); the
+                # name-reading one first / last; nested two levels
+                'def f():\n    return a\ndef g():\n    return 1\nf()', 'def g():\n    return 1\ndef f():\n    return a\nf()', '(lambda: a, lambda: 1)[0]()', '(lambda: 1, lambda: a)[1]()',
+                'def h():\n    u = lambda: a\n    v = lambda: 7\n    return u\nh()()', 'def f():\n    return a\ndef g():\n    return 1\nf() if True else 0']
     cfg = {'a': 2}
     jobs = []
     for prog in one_name:
@@ -413,7 +458,7 @@ def run_c12(repo, tier, seed, only=None):
 
 def register_c12(R):
     R.tasks.append(Bounded('bounded:C12-eval-programs', ('C12',), run_c12,
-                           '16 one-name programs x (with / without source file name), each in its own child process (exit status checked); 6 (thorough 40) histories of three builds in one process; fixed witnesses of the recorded rewriter finding',
+                           '22 one-name programs (incl. several nested code objects per program) x (with / without source file name), each in its own child process (exit status checked); 6 (thorough 40) histories of three builds in one process; fixed witnesses of the recorded rewriter finding',
                            stands_in_for='EvalNode._patch_access_to_globals (CPython bytecode rewriting: outside any source-level contract), compile/exec/eval, sys.modules namespace cache'))
 
 
